@@ -10,6 +10,7 @@ import (
 	"regexp"
 	"strings"
 	"sync"
+	"syscall"
 	"time"
 )
 
@@ -81,6 +82,8 @@ func runSolvers(query string, file string, timeout time.Duration, wantModel bool
 			args = append(args, f)
 			start := time.Now()
 			cmd := exec.CommandContext(ctx, s.bin, args...)
+			// a solver must not outlive this process (a killed check would leave it spinning)
+			cmd.SysProcAttr = &syscall.SysProcAttr{Pdeathsig: syscall.SIGKILL}
 			var out bytes.Buffer
 			cmd.Stdout = &out
 			cmd.Stderr = &out
